@@ -113,13 +113,32 @@ def oracle(case, ans):
     fails = []
     width = E.width_of(case["syntax"])
     for idx, op in enumerate(case["ops"]):
-        st_prev, _, prev, dump_prev = steps[idx]
-        status, _, cur, dump_cur = steps[idx + 1]
+        st_prev, _, prev, dump_prev, _ = steps[idx]
+        status, _, cur, dump_cur, at = steps[idx + 1]
         k = op[0]
         tag = f"step {idx} {op}"
+        if status == "skip":
+            if cur != prev:
+                fails.append(f"{tag}: skipped but the text changed")
+            continue
         if status != "ok":
             if cur != prev:
                 fails.append(f"{tag}: {status} but the text changed")
+            allowed = set()
+            if k == "pop":
+                if not (-len(prev) <= op[1] < len(prev)):
+                    allowed.add("err:IndexError")
+            elif k in ("lib", "lia", "oib", "oia"):
+                if op[2].strip() == "" and case["ignore_blank"]:
+                    allowed.add("err:InvalidParameters")
+                if k in ("lib", "lia") and op[1] == "":
+                    allowed.add("err:ValueError")
+            elif k == "atf":
+                allowed.add("err:NotImplementedError")     # unsupported indentation relations are refused by design
+            elif k in ("sub", "probe"):
+                allowed.add("err:NotImplementedError")     # search_safe refusal; C07 judges when it must happen
+            if status not in allowed:
+                fails.append(f"{tag}: unexpected {status}")
             continue
         n = len(prev)
         if k == "ins":
@@ -138,20 +157,20 @@ def oracle(case, ans):
                 if hit and k == "lia":
                     want.append(op[2])
         elif k in ("oib", "oia"):
-            i = op[1] % n
+            i = at
             want = prev[:i] + [op[2]] + prev[i:] if k == "oib" else prev[:i + 1] + [op[2]] + prev[i + 1:]
         elif k == "del":
-            i = op[1] % n
+            i = at
             gone = {i} | set(descendants(dump_prev["parents"], i))
             want = [t for j, t in enumerate(prev) if j not in gone]
         elif k == "rep":
-            i = op[1] % n
+            i = at
             want = list(prev); want[i] = prev[i].replace(op[2], op[3])
         elif k == "sub":
-            i = op[1] % n
+            i = at
             want = list(prev); want[i] = re.sub(op[2], op[3], prev[i])
         elif k == "atf":
-            i = op[1] % n
+            i = at
             f = check_atf(case, op, i, prev, cur, dump_prev, dump_cur, width)
             if f:
                 fails.append(f"{tag}: {f}")
@@ -224,5 +243,5 @@ def describe(case):
 def buckets(case, ans):
     out = ["syntax:" + case["syntax"], "auto:%d" % case["auto_commit"], "ops:%d" % len(case["ops"])]
     for op, part in zip(case["ops"], ans.split("#")[1:]):
-        out.append("op:" + op[0] + ":" + part.split("~")[0])
+        out.append("op:" + op[0] + ":" + part.split("~")[0].split("@")[0])
     return out
